@@ -101,11 +101,18 @@ func (f *Func) String() string {
 
 // Type returns the type of the function.
 func (f *Func) Type() types.Type {
-	// Cache type if not present; recompute it if the address space was set
-	// after the type was cached (as done by ir.NewFunc).
-	if f.Typ == nil || f.Typ.AddrSpace != f.AddrSpace {
+	// Cache type if not present.
+	if f.Typ == nil {
 		f.Typ = types.NewPointer(f.Sig)
 		f.Typ.AddrSpace = f.AddrSpace
+	}
+	if f.Typ.AddrSpace != f.AddrSpace {
+		// The address space was set after the type was cached (as done by users
+		// of ir.NewFunc). The cached type is left as is, since Type may be called
+		// by concurrent printers.
+		typ := types.NewPointer(f.Sig)
+		typ.AddrSpace = f.AddrSpace
+		return typ
 	}
 	return f.Typ
 }
